@@ -39,6 +39,7 @@ Section ValInd.
   Hypothesis HList : forall l, Forall P l -> P (VList l).
   Hypothesis HMap : forall l, Forall (fun e => P (fst e) /\ P (snd e)) l -> P (VMap l).
   Hypothesis HLam : forall c, P (VLambda c).
+  Hypothesis HTicket : forall a ep x z, P x -> P (VTicket a ep x z).
 
   Fixpoint val_ind' (v : val) : P v :=
     match v with
@@ -60,6 +61,7 @@ Section ValInd.
                    | (k, x) :: r => Forall_cons (k, x) (conj (val_ind' k) (val_ind' x)) (go r)
                    end) l)
     | VLambda c => HLam c
+    | VTicket a ep x z => HTicket a ep x z (val_ind' x)
     end.
 End ValInd.
 
@@ -237,7 +239,7 @@ Section PackProofs.
     induction v using val_ind'; intro Hp;
       try (apply single; [intros ? ? E; discriminate E|]; unfold Values.to_mich; cbn [tm fst]; constructor; fail).
     - (* address *) apply single; [intros ? ? E; discriminate E|].
-      unfold Values.to_mich. cbn [tm fst]. rewrite <- forge_contract_ep. constructor.
+      unfold Values.to_mich. cbn [tm fst addr_node]. rewrite <- forge_contract_ep. constructor.
     - (* some *) apply single; [intros ? ? E; discriminate E|]. cbn [Pack.lambda_plain] in Hp.
       change (to_mich Optimized (VSome v)) with (NPrim T_Some [to_mich Optimized v] []).
       constructor. apply IHv, Hp.
@@ -272,6 +274,7 @@ Section PackProofs.
     - (* lambda *) apply single; [intros ? ? E; discriminate E|].
       cbn [Pack.lambda_plain] in Hp. apply node_eqb_spec in Hp.
       change (to_mich Optimized (VLambda c)) with c. rewrite <- Hp at 2. constructor.
+    - (* ticket: not packable, outside lambda_plain *) discriminate Hp.
   Qed.
 
   Lemma pack_shape t v :
